@@ -32,23 +32,24 @@ Theorem C18_limiter_invariant :
                       /\ l_upd s' <= last l (l_upd s) /\ l_upd s <= l_upd s').
 Proof. split; [exact wf_init | exact run_prefix]. Qed.
 
-(* throttle handler, state-wise: denied iff at least sample_size responses were counted since the
-   window restarted and the two-decimal percentage of throttled ones exceeds deny_request_at;
+(* throttle handler, state-wise: denied iff at least sample_size responses were counted since the window restarted and MORE than
+   deny_request_at percent of them were throttled - decided on the exact share (throttled * 100 > deny_request_at * total), no rounding;
    the window restarts at the first call later than sampling_period after the previous restart *)
 Theorem C18_throttle_decision :
   forall s now s' b,
-  0 <= t_deny s ->
   allow_request s now = Ok (s', b) ->
-  (b = false <-> (t_sample s <= inject_Z (t_non s + t_thr s) /\ (t_non s + t_thr s <> 0)%Z /\ t_deny s < round2 (exact_percent s)))
+  (b = false <-> (t_sample s <= inject_Z (t_non s + t_thr s) /\ (t_non s + t_thr s <> 0)%Z
+                  /\ t_deny s * inject_Z (t_non s + t_thr s) < inject_Z (t_thr s * 100)))
   /\ (s' = if qlt (t_period s) (now - t_upd s)
            then {| t_non := 0; t_thr := 0; t_upd := now; t_period := t_period s; t_sample := t_sample s; t_deny := t_deny s |}
            else s).
 Proof. exact throttle_decision. Qed.
 
-Theorem C18_rounding_effect :
-  forall x deny (D : Z), deny == inject_Z D / 100 ->
-  (x <= deny -> round2 x <= deny) /\ (deny + (1 # 200) < x -> deny < round2 x).
-Proof. exact rounding_effect. Qed.
+(* the case the two-decimal rounding used to get wrong: 3 throttled of 299 responses are 1.0033 % - more than 1 % *)
+Example C18_exact_share :
+  ser_thr_run 180 5 1 0 (repeat TNot 296 ++ [TThrottled; TThrottled; TThrottled; TAllow 1]) = [0]%Z
+  /\ ser_thr_run 180 5 1 0 (repeat TNot 297 ++ [TThrottled; TThrottled; TThrottled; TAllow 1]) = [1]%Z.
+Proof. split; vm_compute; reflexivity. Qed.
 
 Example C18_nonvacuous :
   ser_lim_run (1 # 2) 0 [(1 # 1); (21 # 10); (22 # 10); (5 # 1)] = [0; 0; 1; 0; 1; -1; 0; 1; 5; 1]%Z
